@@ -36,6 +36,9 @@ TABLE_SPECIALS = [
     "@a{1.5%kg} @b{0.125%l} @c{3.0625%oz} @d{7.9%lb} @e{0.66%pint} @f{1-2%cups}\n",
     ">> time: 10 min\n>> prep time: 5 min\n>> cook time: 1h\n@a{1%g}\n",
     ">> prep time: 5 min\n>> time: 10 min\n",
+    ">> prep time: 5 min\n>> cook time: 1h\n>> time: 10 min\nBoil @water{1%l}.\n",
+    "---\ntitle: x\n---\n>> author: me\n>> servings: 2\n@a{1}\n",
+    ">> author: me\n>> servings: 2\n@a{1}\n",
     "@eggs{2} @&eggs{1} @milk{1%l} @&milk{200%ml} @&milk{1%cup}\n",
 ]
 SHORT = ["", "@", "@a", "@a{", "@a{}", "@a{1}", "@a{1%", "#p{}", "~{1%h}", "~t{1}", ">> a: b", ">>", "---", "---\n---\n",
@@ -83,7 +86,7 @@ def case_line(op, s, cfg):
 
 
 def make_inputs(tier, rng):
-    n = 250 if tier == "quick" else 2500
+    n = 400 if tier == "quick" else 3000
     g = [t for t, _, _, _ in pc.grec_texts(rng, n)]
     bad = [pc.mutate(t, rng) for t in g]
     full = pc.SIGMA_CORE + pc.SIGMA_MORE
@@ -138,7 +141,7 @@ def run(rep, tier, seed):
         rep_hist.append(h)
     # (ii) seeded random histories: one process, parsers created once and reused; parse calls
     # interleaved with metadata-only parses and scale/convert pipelines, configurations mixed
-    n_hist = 48 if quick else 800
+    n_hist = 160 if quick else 1600
     hist_len = 200
     histories = []
     for _ in range(n_hist):
@@ -152,7 +155,7 @@ def run(rep, tier, seed):
             h.append(ref_key(op, s, cfg0 if single else rng.choice(CONFIGS)))
         histories.append(h)
     # (iii) thread pools
-    n_rounds = 8 if quick else 24
+    n_rounds = 12 if quick else 24
     n_threads = 16
     iters = 2000
     pools = []
@@ -325,8 +328,13 @@ def run(rep, tier, seed):
                             "pure_parse instantiated by the fresh-process result; compared on %d calls" % calls,
         "process_mismatches": n_proc_mismatch,
         "monitor_violations": len(hits),
-        "samples": [{"op": k[0], "input": k[1], "ext": k[2][0], "conv": k[2][1], "digest": universe[k]}
-                    for k in (keys[:2] + keys[len(keys) // 2:len(keys) // 2 + 2] + keys[-2:])],
+        "samples": [{"call": {"op": k[0], "input": k[1], "ext": k[2][0], "conv": k[2][1]}, "digest": universe[k]}
+                    for k in (keys[:2] + keys[len(keys) // 2:len(keys) // 2 + 2] + keys[-2:])] +
+                   [{"history_prefix": [{"op": k[0], "input": k[1], "ext": k[2][0], "conv": k[2][1]} for k in histories[0][:5]],
+                     "length": len(histories[0])},
+                    {"thread_round": {"ext": pools[0][0][0], "conv": pools[0][0][1], "threads": n_threads,
+                                      "calls_per_thread": iters, "pool_size": len(pools[0][1]),
+                                      "pool_prefix": [{"op": k[0], "input": k[1]} for k in pools[0][1][:4]]}}],
     })
     rep.coverage.update(stats)
     try:
